@@ -355,6 +355,9 @@ def check_job_events(events, label, monitors):
         if ('C07' in monitors or 'C05' in monitors) and s1 in ('Creating', 'Running') and s0 != s1:
             if not e['always_run'] and (e['cancelled0'] or e['group_cancelled']):
                 out.append(('cancelled-job-started', where))
+        if ('C05' in monitors or 'C39' in monitors or 'C07' in monitors) and e['always_run'] and s1 == 'Cancelled' and s0 in ('Pending', 'Ready'):
+            # always-run jobs run regardless of their parents' outcomes and of cancellation: they are never cancelled instead of run
+            out.append(('always-run-job-cancelled-instead-of-run', where))
         if 'C41' in monitors and not e['committed'] and s1 != 'Pending':
             out.append(('uncommitted-job-changed-state', where))
     return out
